@@ -17,8 +17,13 @@ TYPES = ["positive", "complex", "density"]
 def flist(k, s):
     if s == 0 or k == 0:
         return st.just([0.0] * k)
-    return st.lists(st.floats(min_value=-s, max_value=s, allow_nan=False, allow_infinity=False, width=64),
-                    min_size=k, max_size=k)
+    fl = st.floats(min_value=-s, max_value=s, allow_nan=False, allow_infinity=False, width=64)
+    generic = st.lists(fl, min_size=k, max_size=k)
+    # structured value regimes: all entries equal; all of the same magnitude with alternating sign; all at the extreme of the range
+    equal = fl.map(lambda v: [v] * k)
+    alternating = fl.map(lambda v: [v if i % 2 == 0 else -v for i in range(k)])
+    extreme = st.lists(st.sampled_from([-s, s]), min_size=k, max_size=k).map(lambda v: [float(x) for x in v])
+    return st.one_of(generic, generic, generic, generic, generic, equal, alternating, extreme)
 
 
 def fmat(r, c, s):
@@ -87,7 +92,8 @@ def state_case(draw, types=TYPES, n=(1, 4), nh=(1, 4), na=(1, 3), scales=SCALES,
     return rescale_case(case, bound)
 
 
-ANGLE = st.floats(min_value=-3.2, max_value=3.2, allow_nan=False, width=64)
+ANGLE = st.one_of(st.floats(min_value=-3.2, max_value=3.2, allow_nan=False, width=64), st.floats(min_value=-7.0, max_value=7.0, allow_nan=False, width=64),
+                  st.sampled_from([0.0, 3.141592653589793, -3.141592653589793, 1.5707963267948966, 6.283185307179586]))
 
 
 @st.composite
